@@ -420,3 +420,99 @@ Definition plain (x : str) : bool := if is_multiline x then plain_block x else p
 
 Definition starts_quote (k : str) : bool := match k with c :: _ => c =? DQ | [] => false end.
 
+
+(** *** document theorem: every name / lexeme written as it is must not be empty, start with an
+    opening brace, end in a dollar sign or contain a carriage return (GraphQL names and numbers
+    never do); a string value may contain a carriage return only if it is printed on one line *)
+Definition atom_ok (x : str) : bool :=
+  match x with [] => false | c :: _ => negb (c =? LBRACE) end && negb (ends_dollar x) && no_cr x.
+Definition lit_ok (x : str) : bool := negb (is_multiline x) || no_cr x.
+Definition id_ok (i : ident) : bool := atom_ok (iname i).
+
+Fixpoint ty_ok (t : ty) : bool :=
+  match t with TNamed n => id_ok n | TNonNull t' => ty_ok t' | TList _ t' => ty_ok t' end.
+
+Fixpoint value_ok (v : value) : bool :=
+  match v with
+  | VVar n _ => atom_ok n
+  | VInt _ l => atom_ok l
+  | VFloat _ l => atom_ok l
+  | VString _ x => lit_ok x
+  | VBool _ _ => true
+  | VNull _ => true
+  | VEnum _ x => atom_ok x
+  | VList _ vs => forallb value_ok vs
+  | VObject _ fs => forallb (fun kv => id_ok (fst kv) && value_ok (snd kv)) fs
+  end.
+
+Definition arg_ok (kv : ident * value) : bool := id_ok (fst kv) && value_ok (snd kv).
+Definition args_ok (a : arguments) : bool := forallb arg_ok (args_list a).
+Definition oargs_ok (a : option arguments) : bool := match a with Some x => args_ok x | None => true end.
+Definition dir_ok (d : directive) : bool := id_ok (dir_name d) && oargs_ok (dir_args d).
+Definition dirs_ok (ds : list directive) : bool := forallb dir_ok ds.
+Definition oid_ok (i : option ident) : bool := match i with Some x => id_ok x | None => true end.
+
+Fixpoint sel_ok (x : selection) : bool :=
+  match x with
+  | SField al n args ds sel =>
+      oid_ok al && id_ok n && oargs_ok args && dirs_ok ds
+      && match sel with Some ss => selset_ok ss | None => true end
+  | SSpread _ n ds => id_ok n && dirs_ok ds
+  | SInline _ c ds ss => oid_ok c && dirs_ok ds && selset_ok ss
+  end
+with selset_ok (ss : selset) : bool :=
+  match ss with SelSet _ l => forallb sel_ok l end.
+
+Definition ovalue_ok (v : option value) : bool := match v with Some x => value_ok x | None => true end.
+Definition vardef_ok (v : vardef) : bool :=
+  atom_ok (vd_name v) && ty_ok (vd_type v) && ovalue_ok (vd_default v) && dirs_ok (vd_dirs v).
+Definition opdef_ok (o : opdef) : bool :=
+  oid_ok (op_name o) && match op_vars o with Some vs => forallb vardef_ok (vds_list vs) | None => true end
+  && dirs_ok (op_dirs o) && selset_ok (op_sel o).
+Definition fragdef_ok (f : fragdef) : bool :=
+  id_ok (fr_name f) && id_ok (fr_cond f) && dirs_ok (fr_dirs f) && selset_ok (fr_sel f).
+Definition importdef_ok (i : importdef) : bool :=
+  forallb (fun t => match t with ImpWildcard => true | ImpName n => id_ok n end) (im_targets i)
+  && lit_ok (im_path i).
+Definition execdef_ok (d : execdef) : bool :=
+  match d with DOp o => opdef_ok o | DFrag f => fragdef_ok f | DImport i => importdef_ok i end.
+Definition opdoc_ok (d : opdoc) : bool := forallb execdef_ok (od_defs d).
+
+Definition desc_ok (d : option desc) : bool := match d with Some x => lit_ok (desc_value x) | None => true end.
+Definition inputval_ok (i : inputvaldef) : bool :=
+  desc_ok (iv_desc i) && id_ok (iv_name i) && ty_ok (iv_type i) && ovalue_ok (iv_default i) && dirs_ok (iv_dirs i).
+Definition oargsdef_ok (a : option (list inputvaldef)) : bool :=
+  match a with Some l => forallb inputval_ok l | None => true end.
+Definition fielddef_ok (f : fielddef) : bool :=
+  desc_ok (fd_desc f) && id_ok (fd_name f) && oargsdef_ok (fd_args f) && ty_ok (fd_type f) && dirs_ok (fd_dirs f).
+Definition enumval_ok (e : enumvaldef) : bool := desc_ok (ev_desc e) && id_ok (ev_name e) && dirs_ok (ev_dirs e).
+Definition ids_ok (l : list ident) : bool := forallb id_ok l.
+Definition typedef_ok (t : typedef) : bool :=
+  match t with
+  | TDScalar d _ n ds _ => desc_ok d && id_ok n && dirs_ok ds
+  | TDObject d _ n im ds fs _ | TDInterface d _ n im ds fs _ =>
+      desc_ok d && id_ok n && ids_ok im && dirs_ok ds && forallb fielddef_ok fs
+  | TDUnion d _ n ds ms _ => desc_ok d && id_ok n && dirs_ok ds && ids_ok ms
+  | TDEnum d _ n ds vs _ => desc_ok d && id_ok n && dirs_ok ds && forallb enumval_ok vs
+  | TDInput d _ n ds fs _ => desc_ok d && id_ok n && dirs_ok ds && forallb inputval_ok fs
+  end.
+Definition typeext_ok (t : typeext) : bool :=
+  match t with
+  | TEScalar _ n ds => id_ok n && dirs_ok ds
+  | TEObject _ n im ds fs | TEInterface _ n im ds fs => id_ok n && ids_ok im && dirs_ok ds && forallb fielddef_ok fs
+  | TEUnion _ n ds ms => id_ok n && dirs_ok ds && ids_ok ms
+  | TEEnum _ n ds vs => id_ok n && dirs_ok ds && forallb enumval_ok vs
+  | TEInput _ n ds fs => id_ok n && dirs_ok ds && forallb inputval_ok fs
+  end.
+Definition rootops_ok (l : list (optype * ident)) : bool := forallb (fun kv => id_ok (snd kv)) l.
+Definition tsdef_ok (x : tsdef) : bool :=
+  match x with
+  | TSSchema d => desc_ok (sd_desc d) && dirs_ok (sd_dirs d) && rootops_ok (sd_ops d)
+  | TSType t => typedef_ok t
+  | TSDirective d =>
+      desc_ok (dd_desc d) && id_ok (dd_name d) && oargsdef_ok (dd_args d) && oid_ok (dd_repeatable d)
+      && ids_ok (dd_locs d)
+  | TSSchemaExt e => dirs_ok (se_dirs e) && rootops_ok (se_ops e)
+  | TSTypeExt t => typeext_ok t
+  end.
+Definition tsdoc_ok (d : tsdoc) : bool := forallb tsdef_ok d.
